@@ -397,6 +397,20 @@ def run(ctx):
                                [[a, b] for a in (0, 1, 63, 64, 127, 128, 251, 255) for b in (0, 3, 15, 16, 252, 255)])]
     bins += [gen_bytes(rng) for _ in range(n // 4)]
     check_cases(ctx, res, encs, decs, bins)
+    if ctx.tier == 'thorough' and ctx.model_ok:
+        # cross-check the EXTRACTED model against evaluation inside Coq on a subsample
+        from harness import core
+        sub = bins[:120] + bins[-80:]
+        lit = '[' + '; '.join('[' + '; '.join(str(x) for x in b) + ']' for b in sub) + ']'
+        incoq = core.coq_eval('From GV Require Import Lib.Str Model.Base64.',
+                              'map encode_bin_value %s' % lit)
+        extracted = [list(unhx(x)) for x in ctx.model(['encbin ' + hx(b) for b in sub])]
+        res.extra['extraction_crosscheck'] = {'cases': len(sub), 'mismatches': 0}
+        for b, a1, a2 in zip(sub, incoq, extracted):
+            if list(a1) != a2:
+                res.extra['extraction_crosscheck']['mismatches'] += 1
+                res.disagreements.append({'case': {'op': 'encbin', 'b': b}, 'model': a2,
+                                          'impl': 'in-Coq vm_compute says %r' % (a1,)})
     # end to end: valid metadata through a real client/server pair, in three response layouts
     shapes = ['normal', 'trailers-only-error', 'trailers-only-ok']
     cases = [(gen_valid_md(rng), shapes[i % 3]) for i in range(ctx.n(90, 1500))]
